@@ -9,6 +9,7 @@ import (
 	"strings"
 	"time"
 
+	"github.com/pentops/j5/gen/j5/ext/v1/ext_j5pb"
 	"github.com/pentops/j5/internal/bcl/internal/verif/j5ref"
 	"google.golang.org/protobuf/proto"
 	"google.golang.org/protobuf/reflect/protoreflect"
@@ -114,7 +115,11 @@ func (c *Ctx) scalar(t *rapid.T, f protoreflect.FieldDescriptor, label string) p
 	case protoreflect.EnumKind:
 		vals := f.Enum().Values()
 		nums := make([]protoreflect.EnumNumber, 0, vals.Len())
+		noDefault := enumNoDefault(f)
 		for i := 0; i < vals.Len(); i++ {
+			if noDefault && vals.Get(i).Number() == 0 && vals.Len() > 1 {
+				continue
+			}
 			nums = append(nums, vals.Get(i).Number())
 		}
 		return protoreflect.ValueOfEnum(rapid.SampledFrom(nums).Draw(t, label))
@@ -206,9 +211,11 @@ func (c *Ctx) special(t *rapid.T, md protoreflect.MessageDescriptor, depth int, 
 		if form != 1 {
 			doc, err := c.Enc.Encode(inner)
 			if err != nil {
-				panic(fmt.Sprintf("mgen: reference encoding of any payload: %v", err))
+				// payload type has no J5 form (arbitrary mode): proto payload only
+				form = 1
+			} else {
+				setField(m, "j5_json", protoreflect.ValueOfBytes(doc.Bytes()))
 			}
-			setField(m, "j5_json", protoreflect.ValueOfBytes(doc.Bytes()))
 		}
 		if form != 0 {
 			setField(m, "proto", protoreflect.ValueOfBytes(pb))
@@ -329,7 +336,7 @@ func (c *Ctx) Message(t *rapid.T, md protoreflect.MessageDescriptor, depth int, 
 			if !ok {
 				continue
 			}
-			if f.HasOptionalKeyword() && f.Kind() != protoreflect.MessageKind && rapid.IntRange(0, 3).Draw(t, fl+"zero") == 0 {
+			if f.HasOptionalKeyword() && f.Kind() != protoreflect.MessageKind && !enumNoDefault(f) && rapid.IntRange(0, 3).Draw(t, fl+"zero") == 0 {
 				v = f.Default()
 				if f.Kind() == protoreflect.BytesKind {
 					v = protoreflect.ValueOfBytes(nil)
@@ -349,4 +356,13 @@ func (c *Ctx) Message(t *rapid.T, md protoreflect.MessageDescriptor, depth int, 
 // outside the BMP (used by the non-triviality rule).
 func HasHardText(doc string) bool {
 	return strings.ContainsAny(doc, "\\") || strings.ContainsRune(doc, '😀') || strings.ContainsRune(doc, '𐍈')
+}
+
+// enumNoDefault: the enum declares its zero value invalid ((j5.ext.v1.enum).no_default).
+func enumNoDefault(f protoreflect.FieldDescriptor) bool {
+	if f.Kind() != protoreflect.EnumKind || f.Enum().Options() == nil {
+		return false
+	}
+	eo, _ := proto.GetExtension(f.Enum().Options(), ext_j5pb.E_Enum).(*ext_j5pb.EnumOptions)
+	return eo != nil && eo.NoDefault
 }
